@@ -250,6 +250,19 @@ def edits(rng, w, info, k=3):
             if lower:
                 from ir_world import tok_of_s
                 out.append(['create', 'children', str(idx(d)), tok_of_s('n%d' % rng.randint(0, 99)), '0', '0', str(idx(rng.choice(lower)))])
+    # directed last edit (one case in eight): the library that holds the top cell is taken out of the netlist and
+    # put into a new, empty netlist (which has no top instance): every reference obtained before is rooted at an
+    # instance that is no longer the top instance of the netlist its cell lives in
+    if rng.random() < 0.125:
+        nl = w.objs[info['netlist']]
+        t = nl.top_instance
+        lib = t.reference.library if t is not None and t.reference is not None else None
+        if lib is not None and lib.netlist is nl:
+            created = sum(1 for o in out if o[0] == 'create' or (o[0] == 'settop' and o[2][:1] == 'D'))
+            new_n = len(w.objs) + created
+            out.append(['new', 'netlist', '~', '0'])
+            out.append(['remove', 'libs', str(info['netlist']), str(idx(lib))])
+            out.append(['add', 'libs', str(new_n), str(idx(lib)), '~'])
     return out
 
 
